@@ -5,7 +5,7 @@ Import ListNotations.
 
 (* ---------- exhaustive quantifiers ---------- *)
 Definition all_cpc (f : cpc -> bool) : bool :=
-  f Idle && f St_chk && f St_chkF && f St_spawn && f St_setrun && f St_rel && f Sp_chk && f Sp_rel1 && f Sp_join
+  f Idle && f St_chk && f St_chkF && f St_chkT && f St_spawnT && f St_spawn && f St_setrun && f St_rel && f Sp_chk && f Sp_rel1 && f Sp_join
   && f Sp_clear && f Sp_acq2 && f Sp_reset && f Sp_rel2.
 Lemma all_cpc_ok f : all_cpc f = true -> forall x, f x = true.
 Proof. unfold all_cpc. intros H x. repeat (apply andb_prop in H; destruct H as [H ?]). destruct x; assumption. Qed.
@@ -18,7 +18,7 @@ Definition all_sk (f : sk -> bool) : bool := f SNone && f SOpen && f SClosed.
 Lemma all_sk_ok f : all_sk f = true -> forall x, f x = true.
 Proof. unfold all_sk. intros H x. repeat (apply andb_prop in H; destruct H as [H ?]). destruct x; assumption. Qed.
 
-Definition all_op (f : op -> bool) : bool := f Start && f Stop && f StartF.
+Definition all_op (f : op -> bool) : bool := f Start && f Stop && f StartF && f StartT.
 Lemma all_op_ok f : all_op f = true -> forall x, f x = true.
 Proof. unfold all_op. intros H x. repeat (apply andb_prop in H; destruct H as [H ?]). destruct x; assumption. Qed.
 
@@ -53,13 +53,14 @@ Definition gok (g : glob) : bool :=
   && (lk_eqb (lock g) LCaller || core g).
 
 Definition holder (p : cpc) : bool :=
-  match p with St_chk | St_chkF | St_spawn | St_setrun | St_rel | Sp_chk | Sp_rel1 | Sp_reset | Sp_rel2 => true | _ => false end.
+  match p with St_chk | St_chkF | St_chkT | St_spawnT | St_spawn | St_setrun | St_rel | Sp_chk | Sp_rel1 | Sp_reset | Sp_rel2 => true | _ => false end.
 
 Definition lok (g : glob) (me : bool) (p : cpc) : bool :=
   Bool.eqb me (holder p) && implb me (lk_eqb (lock g) LCaller) &&
   match p with
   | Idle => true
-  | St_chk | St_chkF | Sp_chk => core g
+  | St_chk | St_chkF | St_chkT | Sp_chk => core g
+  | St_spawnT => negb (running g) && negb (shreq g) && negb (mref g) && mt_ended (mt g) && sock_open (sock g)
   | St_spawn => negb (running g) && negb (shreq g) && negb (mref g) && mt_ended (mt g) && sock_open (sock g)
   | St_setrun => negb (running g) && negb (shreq g) && mref g && mpc_eqb (mt g) M_acq && sock_open (sock g)
   | St_rel => running_core g
